@@ -341,6 +341,11 @@ def single_value_pairs(versions, full=True):
             kw['keyShares'] = [k for k in d.keyShares if k == value or k in other]
         ckw, skw = {'maxVersion': ver}, {}
         (ckw if side == 'client' else skw).update(kw)
+        dflt = getattr(hs.HandshakeSettings(), setting)
+        if value not in dflt:
+            # a value the defaults do not enable (rc4, null, md5, secp256k1 ...) can only be negotiated when the
+            # other side enables it too: defaults + that value there
+            (skw if side == 'client' else ckw)[setting] = list(dflt) + [value]
         try:
             c, s = _mkdesc(**ckw), _mkdesc(**skw)
             M.rebuild(c).validate()
@@ -377,6 +382,62 @@ def single_value_pairs(versions, full=True):
                                 chosen.append(v)
                     for value in chosen:
                         add('general', cred, None, side, setting, value, ver)
+    return out
+
+
+CIPHER_CLASSES = [('stream', 'rc4'), ('cbc', 'aes128'), ('cbc-3des', '3des'), ('aead', 'aes128gcm'), ('null', 'null')]
+FLAG_VARIANTS = (
+    [('useEncryptThenMAC client=%s server=%s' % (a, b), {'useEncryptThenMAC': a}, {'useEncryptThenMAC': b})
+     for a in (True, False) for b in (True, False)] +
+    [('useExtendedMasterSecret off on the %s' % w, {'useExtendedMasterSecret': False} if 'c' in k else {},
+      {'useExtendedMasterSecret': False} if 's' in k else {}) for w, k in (('client', 'c'), ('server', 's'), ('both', 'cs'))] +
+    [('usePaddingExtension off on the %s' % w, {'usePaddingExtension': False} if k == 'c' else {},
+      {'usePaddingExtension': False} if k == 's' else {}) for w, k in (('client', 'c'), ('server', 's'))] +
+    [('use_heartbeat_extension off on the %s' % w, {'use_heartbeat_extension': False} if 'c' in k else {},
+      {'use_heartbeat_extension': False} if 's' in k else {}) for w, k in (('client', 'c'), ('server', 's'), ('both', 'cs'))] +
+    [('record_size_limit=512 on the %s' % w, {'record_size_limit': 512} if k == 'c' else {},
+      {'record_size_limit': 512} if k == 's' else {}) for w, k in (('client', 'c'), ('server', 's'))] +
+    [('record_size_limit absent on the %s' % w, {'record_size_limit': None} if k == 'c' else {},
+      {'record_size_limit': None} if k == 's' else {}) for w, k in (('client', 'c'), ('server', 's'))]
+)
+
+
+def cipher_pairs():
+    """(a) every cipher name of the installation's domain negotiated ALONE (both sides enable it, the client only it)
+    once per version family with default booleans; (b) every boolean / optional-extension setting crossed with one
+    cipher of each class (stream, CBC, 3DES, AEAD, NULL) per version family."""
+    import tlslite.handshakesettings as hs
+    out = []
+    n = 30000
+    dflt = list(hs.HandshakeSettings().cipherNames)
+
+    def add(label, cipher, ver, ckw, skw, cred='rsa'):
+        nonlocal n
+        n += 1
+        c = dict(ckw, maxVersion=ver, cipherNames=[cipher])
+        s = dict(skw, cipherNames=dflt + ([cipher] if cipher not in dflt else []))
+        if cipher == 'rc4' or cipher == 'null':
+            c['macNames'] = list(hs.ALL_MAC_NAMES)
+            s['macNames'] = list(hs.ALL_MAC_NAMES)
+        try:
+            cd, sd = _mkdesc(**c), _mkdesc(**s)
+            M.rebuild(cd).validate()
+            M.rebuild(sd).validate()
+        except ValueError:
+            return
+        out.append({'seed': n, 'cred': cred, 'client': cd, 'server': sd, 'xfer': 3000,
+                    'labels': (['cipher:%s alone, TLS %d.%d, %s%s' % (cipher, ver[0], ver[1], cred, ', ' + label if label else '')], [])})
+    for ver in [(3, 1), (3, 2), (3, 3), (3, 4)]:
+        for cipher in hs.ALL_CIPHER_NAMES:
+            add('', cipher, ver, {}, {})
+            if ver in ((3, 1), (3, 3)):
+                add('', cipher, ver, {}, {}, cred='ecdsa')
+    for ver in [(3, 1), (3, 3), (3, 4)]:
+        for cls_, cipher in CIPHER_CLASSES:
+            if ver == (3, 4) and cls_ != 'aead':
+                continue
+            for label, ckw, skw in FLAG_VARIANTS:
+                add('%s cipher, %s' % (cls_, label), cipher, ver, ckw, skw)
     return out
 
 
@@ -459,8 +520,8 @@ def run_pair(p):
                 return {'lit': None, 'rejected': True, 'client': ('rejected',), 'server': ('rejected',), 'version': None,
                         'detail': (str(e)[:200], '')}
             raise
-        lit = '(%s, %s, %s, %s)' % (M.settings_lit(vc), M.settings_lit(vs), cred_lit(p['cred'], p.get('psk')),
-                                    cred_lit(p.get('ccred')))
+        parts = (M.settings_lit(vc), M.settings_lit(vs), cred_lit(p['cred'], p.get('psk')), cred_lit(p.get('ccred')))
+        lit = True
         skw = {'settings': s}
         if p['cred'] != 'psk':
             chain, key = load_cred(p['cred'])
@@ -510,7 +571,7 @@ def run_pair(p):
                     cc, sc = (wc, rc) if src is pair.client else (rc, wc)
                     detail = (repr(w[1])[:200] if w[0] == 'exc' else '', repr(r[1])[:200] if r[0] == 'exc' else '')
                     break
-        return {'lit': lit, 'client': cc, 'server': sc, 'version': ver, 'detail': detail, 'phase': phase,
+        return {'lit': lit, 'parts': parts, 'client': cc, 'server': sc, 'version': ver, 'detail': detail, 'phase': phase,
                 'resumed': bool(getattr(pair.client, 'resumed', False)) if ver else None}
     except Exception as e:  # noqa
         import traceback
@@ -540,13 +601,54 @@ def reason(o):
     return 'no-local-alert'
 
 
+def eval_compat(parts, shard):
+    """Evaluate `compatible` / `compatible_any` by vm_compute.  parts[i] = (client literal, server literal, cred, ccred).
+    Identical settings literals (the default side of most pairs) are defined once per file: parsing the string
+    literals dominates the cost.  Returns ((indices with compatible, indices with compatible_any), errors)."""
+    import re
+    ns = max(1, (len(parts) + shard - 1) // shard)
+    files = []
+    for k in range(ns):
+        mine = parts[k::ns]
+        names, defs, rows = {}, [], []
+        for c, s, cr, ccr in mine:
+            for lit in (c, s):
+                if lit not in names:
+                    names[lit] = 'st%d' % len(names)
+                    defs.append('Definition %s : heap * settings := %s.' % (names[lit], lit))
+            rows.append('(%s, %s, %s, %s)' % (names[c], names[s], cr, ccr))
+        text = ('From Coq Require Import ZArith List Bool String.\nFrom TV Require Import Base.Prelude %s.\n'
+                'Import ListNotations.\nOpen Scope Z_scope.\n%s\n%s\nDefinition cases : list PairT := [\n%s\n].\n'
+                'Eval vm_compute in (bad_idx not_compat cases).\nEval vm_compute in (bad_idx not_compat_any cases).\n'
+                % (' '.join(IMPORTS), PREAMBLE, '\n'.join(defs), ';\n'.join(rows)))
+        files.append(('C19p%s_%04d' % (RUN, k), text))
+    res = vlib.coq_run_files(files, timeout=3000)
+    # a coqc killed from outside (rc -9 / 137) is retried once, alone
+    for k, (rc, out) in enumerate(res):
+        if rc in (-9, 137, 124):
+            res[k] = vlib.coq_run_files([files[k]], timeout=3000)[0]
+    bads, errs = [[], []], []
+    for k, (rc, out) in enumerate(res):
+        if rc != 0:
+            errs.append('%s: rc=%s %s' % (files[k][0], rc, out[-1500:]))
+            continue
+        ms = re.findall(r'=\s*\[(.*?)\]\s*:\s*list nat', out, flags=re.S)
+        if len(ms) != 2:
+            errs.append('%s: unparsable output %s' % (files[k][0], out[-500:]))
+            continue
+        for fi, m in enumerate(ms):
+            for n in re.findall(r'\d+', m):
+                bads[fi].append(int(n) * ns + k)
+    return (bads[0], bads[1]), errs
+
+
 def run_pairs(ctx, found, model_ok):
     from props.C19 import V
     quick = ctx.tier == 'quick'
     n = 48 if quick else 1000
     seeds = [ctx.rng.randrange(2 ** 31) for _ in range(n)]
     sweep_versions = [(3, 1), (3, 3), (3, 4)] if quick else [(3, 1), (3, 2), (3, 3), (3, 4)]
-    pairs = directed_pairs() + cross_pairs() + single_value_pairs(sweep_versions, full=not quick) + [gen_pair(sd) for sd in seeds]
+    pairs = directed_pairs() + cross_pairs() + cipher_pairs() + single_value_pairs(sweep_versions, full=not quick) + [gen_pair(sd) for sd in seeds]
     with multiprocessing.Pool(min(16, vlib.NPROC)) as pool:
         outs = pool.map(run_pair, pairs, chunksize=4)
     ctx.log('pairs: %d live pairs run' % len(pairs))
@@ -564,9 +666,7 @@ def run_pairs(ctx, found, model_ok):
             else:
                 V(ctx, found, 'pair-harness-error:%s' % cls(o['client']), 'pair could not be run: %s' % (o['server'],),
                   {'pair': pairs[i], 'detail': o['detail']}, found_input=False)
-    lits = [outs[i]['lit'] for i in idx]
-    (nc, nca), errs = vlib.coq_bad_indices('C19p' + RUN, IMPORTS, 'PairT', ['not_compat', 'not_compat_any'], lits,
-                                           shard=max(4, (len(lits) + 15) // 16) if quick else 50, preamble=PREAMBLE)
+    (nc, nca), errs = eval_compat([outs[i]['parts'] for i in idx], max(8, (len(idx) + 15) // 16) if quick else 80)
     for e in errs:
         V(ctx, found, 'tie-broken:pairs', 'evaluation of `compatible` failed: ' + e[:300], {'detail': e[:2000]}, found_input=False)
         return
